@@ -26,7 +26,7 @@ LEVELS = {
         {'name': 'L3-N3-M2-2faults', 'N': 3, 'M': 2, 'faults': 2, 'budget_s': 1800},
     ],
 }
-FAULTS = ['none', 'dup_name', 'tr_from_final', 'tr_from_history', 'unknown_target', 'history_under_orthogonal',
+FAULTS = ['none', 'dup_name', 'tr_from_final', 'tr_from_history', 'unknown_target', 'empty_target', 'history_under_orthogonal',
           'history_root', 'initial_grandchild', 'initial_sibling_of_parent', 'initial_unknown', 'initial_self',
           'memory_self', 'memory_non_sibling', 'memory_unknown', 'memory_child_of_sibling',
           'unknown_key_outer', 'unknown_key_statechart', 'unknown_key_state', 'unknown_key_transition',
@@ -126,6 +126,11 @@ def inject(fault, pos, doc, nodes, cm):
         if c is None:
             return False
         nodes[c[0]]['transitions'][c[1]]['target'] = 'nowhere'
+    elif fault == 'empty_target':
+        c = pick(trs)
+        if c is None:
+            return False
+        nodes[c[0]]['transitions'][c[1]]['target'] = ''      # names no existing state
     elif fault == 'history_under_orthogonal':
         c = pick([i for i in range(n) if cm.kind[i] == cg.ORTH])
         if c is None:
@@ -266,7 +271,7 @@ def harness(g, chart, level, canary=False):
     nf = level.get('faults', 1)
     applied = []
     doc, nodes = doc_from_chart(cm)
-    nfaults = 15 if level.get('fault_set') == 'structural' else len(FAULTS)   # FAULTS[:15] depend on the hierarchy
+    nfaults = 16 if level.get('fault_set') == 'structural' else len(FAULTS)   # FAULTS[:16] depend on the hierarchy
     f1 = g.choice('fault1', nfaults)
     if f1:
         p1 = g.choice('pos1', level.get('positions', 2))
